@@ -18,6 +18,17 @@ Definition tmp_after_ls (cfg : cap_cfg) (now : Z) (st : cap_state) (ps : list st
   fold_left (ls_step (possible_caps cfg (recently_failed now (st_sts st))))
             (parse_cap (last_or_empty ps)) (st_tmp st).
 
+(* tmpCap after a DEL / the state after a NAK, for either value of Spec tmp_prune_aware.
+   handle_cap_by_kind below proves that Model/Cap.v handle_cap is the variant the flag
+   names; it stops compiling when the model and the flag are not switched together. *)
+Definition tmp_after_del (st : cap_state) (ps : list str) : capmap :=
+  if tmp_prune_aware
+  then fold_left (fun t k => adel k t) (akeys (parse_cap (last_or_empty ps))) (st_tmp st)
+  else st_tmp st.
+
+Definition st_after_nak (st : cap_state) : cap_state :=
+  if tmp_prune_aware then mkSt [] (st_enabled st) (st_sts st) else st.
+
 Definition en_after_ack (st : cap_state) (ps : list str) : capmap :=
   fold_left (ack_step (st_tmp st)) (cap_tokens ps) (st_enabled st).
 
@@ -50,10 +61,10 @@ Proof. repeat split; discriminate. Qed.
 Lemma handle_cap_by_kind ord cfg tls now st ps :
   handle_cap ord cfg tls now st ps =
   match classify ps with
-  | KDel => (mkSt (st_tmp st)
+  | KDel => (mkSt (tmp_after_del st ps)
                   (fold_left (fun en k => adel k en) (akeys (parse_cap (last_or_empty ps))) (st_enabled st))
                   (st_sts st), [])
-  | KNak => (st, [out_END])
+  | KNak => (st_after_nak st, [out_END])
   | KFinal =>
       let tmp1 := tmp_after_ls cfg now st ps in
       if Nat.eqb (length tmp1) 0 then (mkSt tmp1 (st_enabled st) (st_sts st), [out_END])
@@ -65,7 +76,8 @@ Lemma handle_cap_by_kind ord cfg tls now st ps :
 Proof.
   destruct lit_distinct as (D1 & D2 & D3 & D4 & D5 & D6 & D7 & D8 & D9 & D10).
   unfold classify, is_del, is_nak, is_final_ls, is_cont_ls, is_ls, is_ack, sub_is, handle_cap,
-    ack_result, ack_finish, en_after_ack, tmp_after_ls, cap_tokens, out_END, out_REQ, out_AUTH.
+    ack_result, ack_finish, en_after_ack, tmp_after_ls, tmp_after_del, st_after_nak, cap_tokens,
+    out_END, out_REQ, out_AUTH.
   cbv zeta.
   generalize (param1 ps) (length ps) (last_or_empty ps). intros p1 n lst.
   destruct (streqb p1 s_DEL) eqn:EDEL; destruct (streqb p1 s_NAK) eqn:ENAK;
@@ -159,6 +171,17 @@ Proof.
     destruct (Nat.eqb (length ps) 3); discriminate. }
   destruct (is_ack ps) eqn:E5; auto.
 Qed.
+
+(* ---- DEL / NAK and tmpCap, for either value of tmp_prune_aware ------------------ *)
+Lemma st_after_nak_enabled st : st_enabled (st_after_nak st) = st_enabled st.
+Proof. unfold st_after_nak. destruct tmp_prune_aware; reflexivity. Qed.
+
+Lemma st_after_nak_tmp st :
+  st_tmp (st_after_nak st) = if tmp_prune_aware then [] else st_tmp st.
+Proof. unfold st_after_nak. destruct tmp_prune_aware; reflexivity. Qed.
+
+Lemma st_after_nak_tmp_sub st k : In k (akeys (st_tmp (st_after_nak st))) -> In k (akeys (st_tmp st)).
+Proof. rewrite st_after_nak_tmp. destruct tmp_prune_aware; [intros []|auto]. Qed.
 
 (* ====================================================================== *)
 (* 2. every reply pattern is answered by exactly one conclusion            *)
@@ -478,7 +501,7 @@ Proof.
   destruct (classify (in_params i)).
   - rewrite I. cbn [fst st_enabled]. rewrite <- map_map. apply rep_rems; [exact R|].
     intro k. apply parse_cap_keys.
-  - destruct I as (_ & -> & ->). now apply rep_app_nil.
+  - destruct I as (_ & -> & ->). cbn [fst]. rewrite st_after_nak_enabled. now apply rep_app_nil.
   - destruct I as (_ & _ & -> & ->). cbv zeta.
     destruct (Nat.eqb _ 0); now apply rep_app_nil.
   - destruct I as (_ & _ & -> & ->). now apply rep_app_nil.
@@ -811,6 +834,15 @@ Lemma tmp_after_ls_keys cfg now st ps k :
    amem k (possible_caps cfg (recently_failed now (st_sts st))) = true).
 Proof. unfold tmp_after_ls. rewrite ls_fold_keys, parse_cap_keys. reflexivity. Qed.
 
+Lemma tmp_after_del_keys st ps k :
+  In k (akeys (tmp_after_del st ps)) <->
+  In k (akeys (st_tmp st)) /\ (tmp_prune_aware = true -> ~ In k (names_of ps)).
+Proof.
+  unfold tmp_after_del, names_of, cap_tokens. destruct tmp_prune_aware.
+  - rewrite akeys_fold_adel, parse_cap_keys. tauto.
+  - split; [intros H; split; [exact H|discriminate]|tauto].
+Qed.
+
 (* ---- the invariant: tmpCap ⊆ advertised ∩ supported, names without SPACE ------- *)
 Definition TmpInv (cfg : cap_cfg) (h : list cap_in) (tmp : capmap) : Prop :=
   forall k, In k (akeys tmp) -> advertised_in h k /\ supported_spec cfg k /\ ~ In 32 k.
@@ -847,8 +879,9 @@ Proof.
       + apply in_map_iff in Hk as (tok & <- & Ht). apply cap_token_name_no_space.
         eapply split_byte_no_sep. exact Ht. }
   destruct (classify (in_params i)); cbv zeta.
-  - now apply TmpInv_mono.
-  - now apply TmpInv_mono.
+  - cbn [fst st_tmp]. intros k Hk. apply (TmpInv_mono cfg h [i] _ T).
+    apply tmp_after_del_keys in Hk. tauto.
+  - cbn [fst]. intros k Hk. apply (TmpInv_mono cfg h [i] _ T). now apply st_after_nak_tmp_sub.
   - destruct I as (_ & L & _). destruct (Nat.eqb _ 0); now apply LS.
   - destruct I as (_ & L & _). now apply LS.
   - destruct (ack_result_tmp cfg (in_tls i) (in_now i) st (in_params i)) as [->| ->].
@@ -1045,4 +1078,195 @@ Lemma C08_ack_removal_finding_proof :
   has_capability true en (bs "-message-tags") = negb ack_removal_aware /\
   has_capability true en (bs "away-notify") = true /\
   tag_section_present (send_loop_tags en (Some [(bs "k", bs "v")])) = negb ack_removal_aware.
+Proof. vm_compute. repeat split. Qed.
+
+(* ====================================================================== *)
+(* 7. rounds: an acknowledged round leaves nothing pending; a REQ names     *)
+(*    only what is on offer in its own round                                *)
+(* ====================================================================== *)
+
+Lemma ack_result_tmp_alive cfg tls now st ps :
+  conn_ended (snd (ack_result cfg tls now st ps)) = false ->
+  st_tmp (fst (ack_result cfg tls now st ps)) = [].
+Proof.
+  unfold ack_result. cbv zeta.
+  assert (F : forall s, st_tmp (fst (ack_finish cfg (en_after_ack st ps) s)) = []).
+  { intro s. unfold ack_finish. destruct (aget s_sasl _); [destruct (c_sasl cfg)|]; reflexivity. }
+  destruct (aget s_sts (en_after_ack st ps)) as [v|]; [destruct (negb (c_disable_sts cfg))|]; auto.
+  destruct (snd (sts_block tls now v (st_sts st))); [cbn; discriminate|].
+  destruct (negb tls); [cbn; discriminate|auto].
+Qed.
+
+(* (ii) every ACK that does not end the connection — whether it is answered by CAP END or by
+   AUTHENTICATE — leaves tmpCap empty *)
+Lemma C08_ack_clears_tmp_proof ord cfg tls now st ps :
+  is_ack ps = true ->
+  let r := handle_cap ord cfg tls now st ps in
+  (snd r = [out_END] \/ exists mech, snd r = [out_AUTH mech]) ->
+  st_tmp (fst r) = [].
+Proof.
+  intros A. cbv zeta. rewrite handle_cap_by_kind, (classify_ack ps A). intros H.
+  apply ack_result_tmp_alive. destruct H as [->|[mech ->]]; reflexivity.
+Qed.
+
+Lemma is_ack_not_nak ps : is_ack ps = true -> is_nak ps = false.
+Proof.
+  destruct lit_distinct as (D1 & D2 & D3 & D4 & D5 & D6 & D7 & _).
+  unfold is_ack, is_nak. intros H. apply andb_true_iff in H as [_ H].
+  rewrite (sub_is_excl ps s_ACK s_NAK H), andb_false_r by congruence. reflexivity.
+Qed.
+
+Lemma is_ls_not_nak ps : is_ls ps = true -> is_nak ps = false.
+Proof. intros L. destruct (is_ls_sub ps L) as (_ & B & _). unfold is_nak. now rewrite B, andb_false_r. Qed.
+
+Lemma existsb_streqb_In k l : existsb (streqb k) l = true <-> In k l.
+Proof.
+  rewrite existsb_exists. split.
+  - intros (x & Hx & E). apply streqb_iff in E. now subst.
+  - intros H. exists k. split; [exact H|apply streqb_same].
+Qed.
+
+(* the invariant: every pending name is on offer *)
+Definition OInv (acc : list str) (tmp : capmap) : Prop := forall k, In k (akeys tmp) -> In k acc.
+
+Lemma step_offered_inv cfg st i acc :
+  OInv acc (st_tmp st) ->
+  conn_ended (snd (cap_step cfg st i)) = false ->
+  OInv (offered_step acc i) (st_tmp (fst (cap_step cfg st i))).
+Proof.
+  intros O. unfold cap_step, offered_step. rewrite handle_cap_by_kind. cbv zeta.
+  pose proof (classify_inv (in_params i)) as I.
+  destruct (classify (in_params i)) eqn:K.
+  - rewrite I. intros _ k Hk. cbn [fst st_tmp] in Hk. apply tmp_after_del_keys in Hk as [Hk N].
+    destruct tmp_prune_aware.
+    + apply filter_In. split; [now apply O|]. apply negb_true_iff.
+      destruct (existsb (streqb k) (names_of (in_params i))) eqn:E; [|reflexivity].
+      apply existsb_streqb_In in E. exfalso. exact (N eq_refl E).
+    + now apply O.
+  - destruct I as (N & -> & _). rewrite N. intros _ k Hk. cbn [fst] in Hk.
+    rewrite st_after_nak_tmp in Hk. destruct tmp_prune_aware; [destruct Hk|now apply O].
+  - destruct I as (_ & L & -> & _). rewrite (is_ls_not_nak _ L), L. intros _ k Hk.
+    assert (Hk' : In k (akeys (tmp_after_ls cfg (in_now i) st (in_params i)))).
+    { destruct (Nat.eqb _ 0); exact Hk. }
+    apply tmp_after_ls_keys in Hk' as [H|[H _]]; apply in_or_app; [left; now apply O|right; exact H].
+  - destruct I as (_ & L & -> & _). rewrite (is_ls_not_nak _ L), L. intros _ k Hk. cbn [fst st_tmp] in Hk.
+    apply tmp_after_ls_keys in Hk as [H|[H _]]; apply in_or_app; [left; now apply O|right; exact H].
+  - destruct I as (A & -> & ->). rewrite (is_ack_not_nak _ A), A. intros E.
+    rewrite (ack_result_tmp_alive _ _ _ _ _ E). intros k [].
+  - destruct I as (-> & -> & -> & ->). intros _ k Hk. now apply O.
+Qed.
+
+Lemma run_offered_inv cfg h : forall st acc,
+  OInv acc (st_tmp st) -> alive cfg st h ->
+  OInv (fold_left offered_step h acc) (st_tmp (cap_after cfg st h)).
+Proof.
+  induction h as [|i h IH]; intros st acc O A; cbn [fold_left cap_after]; [exact O|].
+  unfold alive in A. cbn [cap_outs] in A. inversion A as [|x l A1 A2]; subst.
+  apply IH; [now apply step_offered_inv|exact A2].
+Qed.
+
+(* (i) for the reading of a round that Spec offered fixes (either value of
+   tmp_prune_aware): on a connection that is still alive, every name in a CAP REQ is on
+   offer when the REQ is written *)
+Lemma C08_req_on_offer_proof cfg s0 h i toks name :
+  ord_sound (in_ord i) -> ord_complete (in_ord i) ->
+  alive cfg (cap_init s0) h ->
+  In (Write s_CAP [s_REQ; toks]) (snd (cap_step cfg (cap_after cfg (cap_init s0) h) i)) ->
+  In name (split_byte 32 toks) ->
+  In name (offered (h ++ [i])).
+Proof.
+  intros OS OC AL HW HN.
+  pose proof (step_tmp_inv cfg h _ i (reachable_tmp_inv cfg s0 h)) as T.
+  assert (O : OInv (offered h) (st_tmp (cap_after cfg (cap_init s0) h))).
+  { apply (run_offered_inv cfg h (cap_init s0) []); [intros k []|exact AL]. }
+  assert (E : conn_ended (snd (cap_step cfg (cap_after cfg (cap_init s0) h) i)) = false).
+  { pose proof (step_conclusion_count (in_ord i) cfg (in_tls i) (in_now i)
+                  (cap_after cfg (cap_init s0) h) (in_params i)) as [_ L].
+    cbv zeta in L. fold (cap_step cfg (cap_after cfg (cap_init s0) h) i) in L.
+    destruct (snd (cap_step cfg (cap_after cfg (cap_init s0) h) i)) as [|o [|o' l]] eqn:S.
+    - destruct HW.
+    - destruct HW as [->|[]]. reflexivity.
+    - destruct (expects_conclusion (in_params i)); discriminate L. }
+  apply (step_offered_inv cfg _ i _ O) in E.
+  unfold offered. rewrite fold_left_app. cbn [fold_left]. fold (offered h).
+  unfold cap_step in *. apply step_req_inv in HW. cbv zeta in HW. destruct HW as [NE ->].
+  set (tmp' := st_tmp (fst (handle_cap (in_ord i) cfg (in_tls i) (in_now i)
+                                       (cap_after cfg (cap_init s0) h) (in_params i)))) in *.
+  rewrite split_join in HN.
+  - apply OS in HN. now apply E.
+  - destruct tmp' as [|[k v] tmp2] eqn:Etmp; [congruence|]. intro Z.
+    assert (In k (in_ord i (akeys ((k, v) :: tmp2)))) as Hk by (apply OC; left; reflexivity).
+    rewrite Z in Hk. destruct Hk.
+  - intros x Hx. apply OS in Hx. destruct (T x Hx) as (_ & _ & S). exact S.
+Qed.
+
+(* what is on offer was advertised on this connection *)
+Lemma offered_step_advertised acc i k :
+  In k (offered_step acc i) -> In k acc \/ advertised_by (in_params i) k.
+Proof.
+  unfold offered_step. destruct (is_del (in_params i)).
+  - destruct tmp_prune_aware; [intro H; apply filter_In in H; tauto|auto].
+  - destruct (is_nak (in_params i)); [destruct tmp_prune_aware; [intros []|auto]|].
+    destruct (is_ls (in_params i)) eqn:L.
+    + intro H. apply in_app_or in H as [H|H]; [auto|]. right. split; [exact L|exact H].
+    + destruct (is_ack (in_params i)); [intros []|auto].
+Qed.
+
+Lemma offered_advertised_gen h : forall acc k,
+  In k (fold_left offered_step h acc) -> In k acc \/ advertised_in h k.
+Proof.
+  induction h as [|i h IH]; intros acc k H; cbn [fold_left] in H; [auto|].
+  apply IH in H as [H|(j & Hj & A)].
+  - apply offered_step_advertised in H as [H|H]; [auto|]. right. exists i. split; [left; reflexivity|exact H].
+  - right. exists j. split; [right; exact Hj|exact A].
+Qed.
+
+Lemma C08_offered_advertised_proof h k : In k (offered h) -> advertised_in h k.
+Proof. intro H. apply offered_advertised_gen in H as [[]|H]. exact H. Qed.
+
+(* ---- examples / the finding ---------------------------------------------------- *)
+Definition req_names (outs : list cap_out) : list str :=
+  flat_map (fun o => match o with
+                     | Write cmd [x; toks] => if streqb cmd s_CAP && streqb x s_REQ then split_byte 32 toks else []
+                     | _ => []
+                     end) outs.
+
+(* a SASL round acknowledged (AUTHENTICATE, not END), then DEL + NEW: only the new name *)
+Definition ex_second_round_h : list cap_in :=
+  [ ex_in [bs "*"; s_LS; bs "cap-notify multi-prefix sasl"];
+    ex_in [bs "me"; s_ACK; bs "cap-notify multi-prefix sasl"];
+    ex_in [bs "me"; s_DEL; bs "multi-prefix"] ].
+
+Example ex_second_round :
+  alive ex_cfg (cap_init sts_init) ex_second_round_h /\
+  cap_outs ex_cfg (cap_init sts_init) ex_second_round_h =
+    [ [out_REQ [bs "cap-notify"; bs "multi-prefix"; bs "sasl"]]; [out_AUTH (bs "PLAIN")]; [] ] /\
+  st_tmp (cap_after ex_cfg (cap_init sts_init) ex_second_round_h) = [] /\
+  snd (cap_step ex_cfg (cap_after ex_cfg (cap_init sts_init) ex_second_round_h)
+                (ex_in [bs "me"; s_NEW; bs "away-notify"])) = [out_REQ [bs "away-notify"]] /\
+  offered (ex_second_round_h ++ [ex_in [bs "me"; s_NEW; bs "away-notify"]]) = [bs "away-notify"].
+Proof.
+  split; [unfold alive; vm_compute; repeat constructor|].
+  vm_compute. repeat split.
+Qed.
+
+(* The finding tmpcap-not-pruned and its repair in one statement: after a NAK (resp. a DEL of
+   a pending name) the next listing's REQ still carries the old names exactly when tmpCap is
+   NOT pruned. *)
+Definition ex_nak_h : list cap_in :=
+  [ ex_in [bs "*"; s_LS; bs "sasl message-tags"]; ex_in [bs "me"; s_NAK; bs "sasl message-tags"] ].
+Definition ex_del_h : list cap_in :=
+  [ ex_in [bs "*"; s_LS; s_star; bs "multi-prefix batch"]; ex_in [bs "me"; s_DEL; bs "multi-prefix"] ].
+
+Lemma C08_tmpcap_prune_finding_proof :
+  let r1 := req_names (snd (cap_step ex_cfg (cap_after ex_cfg (cap_init sts_init) ex_nak_h)
+                                     (ex_in [bs "me"; s_NEW; bs "batch"]))) in
+  let r2 := req_names (snd (cap_step ex_cfg (cap_after ex_cfg (cap_init sts_init) ex_del_h)
+                                     (ex_in [bs "*"; s_LS; bs "away-notify"]))) in
+  existsb (streqb (bs "batch")) r1 = true /\
+  existsb (streqb (bs "sasl")) r1 = negb tmp_prune_aware /\
+  existsb (streqb (bs "message-tags")) r1 = negb tmp_prune_aware /\
+  existsb (streqb (bs "away-notify")) r2 = true /\
+  existsb (streqb (bs "batch")) r2 = true /\
+  existsb (streqb (bs "multi-prefix")) r2 = negb tmp_prune_aware.
 Proof. vm_compute. repeat split. Qed.
